@@ -85,13 +85,17 @@ def compare_model(kv, mline):
         return [mline[2:8].lower()]
     mk = kv_of(mline)
     why = []
-    if mk.get("consumed") != "1":
-        why.append("consumed")
-    if mk.get("out") != kv["b1"]:
+    # the model reads the bytes the implementation wrote (b1) and writes them again; the implementation did
+    # the same (consumed flag, b2). When the implementation's own round trip fails (rt=0: a C01 matter,
+    # reported there) its first write's trace is not that of the second write: compared only when rt=1.
+    rt = kv.get("rt", "1") == "1"
+    if mk.get("consumed") != kv.get("consumed", "1"):
+        why.append("consumed(model=%s,impl=%s)" % (mk.get("consumed"), kv.get("consumed")))
+    if mk.get("out") != kv.get("b2", kv["b1"]):
         why.append("bytes")
     if not refines(mk.get("rtrace", ""), kv["rtrace"]):
         why.append("read-trace")
-    if not refines(mk.get("wtrace", ""), kv["wtrace"]):
+    if rt and not refines(mk.get("wtrace", ""), kv["wtrace"]):
         why.append("write-trace")
     if mk.get("idem") != kv.get("idem"):
         why.append("idempotence(model=%s,impl=%s)" % (mk.get("idem"), kv.get("idem")))
